@@ -4,7 +4,7 @@
 #include "abtsim.h"
 #include <stdio.h>
 
-#define SIM_MAXT 128
+#define SIM_MAXT 512
 #define SIM_STACK_SZ (1u << 20)
 
 enum { ST_FREE = 0, ST_RUNNABLE, ST_BLOCKED, ST_DONE };
